@@ -467,8 +467,12 @@ class Model:
                     (inst.tentative is not None and inst.tentative["silent"])
                 if uncertain and own[0] == "req":
                     # the position of the show is not determined by what was observable: learn it from this step
+                    only_first_step_back = inst.any_idx_once and not inst.lenient and \
+                        not (inst.tentative is not None and inst.tentative["silent"])
                     inst.tentative = None
-                    self._resync(inst, idx, start_time)
+                    self._resync(inst, idx, start_time, loops_uncertain=not only_first_step_back)
+                    if inst.fuzzy:
+                        return
                 else:
                     self.clauses["step_index"] += 1
                     self.V(inst, "step_index", "C17:request_executed_wrong_step", idx=idx, section=section,
@@ -495,7 +499,12 @@ class Model:
         self.cur_step = {"ctx": ctx, "idx": idx, "section": section, "T": e["T"], "colors": [], "coils": [],
                          "inst": inst, "st": st}
 
-    def _resync(self, inst, idx, start_time):
+    def _resync(self, inst, idx, start_time, loops_uncertain=True):
+        """Take position and schedule from an observed step.  If untraceable runs may lie in between, a show with a
+        finite number of loops left may have used one up without trace: its end (loop again / complete) can no
+        longer be predicted, so it becomes indeterminate."""
+        if loops_uncertain and inst.loops > 0:
+            self._make_fuzzy(inst)
         inst.lenient = False
         inst.cur = idx
         inst.pos = idx
@@ -513,6 +522,30 @@ class Model:
             if st["mark"]:
                 self.dirty_variants.add(st["mark"])
 
+    def _silent_chain(self, inst, idx, start_time):
+        snap = self._snapshot(inst)
+        for c in list(snap["pend"]):
+            self._restore(inst, snap)
+            inst.anchor = c
+            inst.acc_ms = 0
+            if inst.state == "waiting":
+                r = self._start(inst, c)
+            else:
+                inst.pend = None
+                r = self._run(inst, c)
+            guard = 0
+            while r == "step" and inst.exp is None and inst.pend and guard < inst.n + 2:
+                guard += 1
+                nxt = self._peek(inst)
+                if nxt == ("step", idx) and inst.steps[idx]["sections"] and abs(inst.pend[0] - start_time) <= TOL:
+                    return True
+                if nxt[0] == "step" and not inst.steps[nxt[1]]["sections"] and inst.pend[0] < start_time - TOL:
+                    r = self._run(inst, inst.pend[0])
+                else:
+                    break
+        self._restore(inst, snap)
+        return False
+
     def _timer_step(self, inst, idx, section, start_time, base, true):
         """A step that no request of this show is executing: it must be the scheduled one."""
         self._finalize_exp(inst, "timer")
@@ -523,7 +556,7 @@ class Model:
         if not inst.pend:
             if inst.lenient:
                 self._resync(inst, idx, start_time)
-                return True
+                return not inst.fuzzy
             self.clauses["step_time"] += 1
             self.V(inst, "step_time", "C17:unscheduled_step", idx=idx, start_time=start_time, t=base,
                    state="held", paused=inst.paused, manual=inst.manual)
@@ -550,10 +583,12 @@ class Model:
                 nxt = self._peek(inst)
                 silent = nxt[0] == "step" and not inst.steps[nxt[1]]["sections"]
             if silent:
-                # several acceptable times for a run that leaves no trace: take the schedule from the observation
-                inst.state = "live"
-                self._resync(inst, idx, start_time)
-                return True
+                # several acceptable times for a run that leaves no trace: follow each and keep the one that leads
+                # to the observed step (loop count, looped/played events and the schedule stay exact)
+                if not self._silent_chain(inst, idx, start_time):
+                    inst.state = "live"
+                    self._resync(inst, idx, start_time)
+                    return not inst.fuzzy
         self.clauses["step_time"] += 1
         match = None
         mi = -1
@@ -880,8 +915,8 @@ class Model:
 
     def _snapshot(self, inst):
         d = {}
-        for k in ("pos", "cur", "loops", "pend", "pend_optional", "anchor", "acc_ms", "paused", "paused_rem",
-                  "expect_self_stop", "execs", "max_loop"):
+        for k in ("state", "pos", "cur", "loops", "pend", "pend_optional", "anchor", "acc_ms", "paused", "paused_rem",
+                  "expect_self_stop", "completion_T", "execs", "max_loop"):
             d[k] = copy.copy(getattr(inst, k))
         d["n_events"] = len(self.exp_events)
         return d
